@@ -17,7 +17,7 @@ Qed.
 Theorem wire_roundtrip_progs w v id buf i old v' :
   (forall rest, decode w old (encode w v ++ rest) = Ok v') ->
   i + List.length (encode w v) <= List.length buf ->
-  exists b', run_fill (prog_fill w) (env_of w v id) buf i = Some (b', List.length (encode w v)) /\
+  exists b', run_fill (prog_fill w) (wenv_of w v id) buf i = Some (b', List.length (encode w v)) /\
              lift (value_of w) (run_wdec (dprog_of w) (wv_of w old) (skipn i b')) = Ok v'.
 Proof.
   intros Hrt Hroom. unfold prog_fill. rewrite wire_fill_is_prog.
